@@ -43,7 +43,7 @@ def setup():
         sh("git checkout -- . && git clean -fdq -e target", cwd=REPO)
         sh("git checkout --detach $(git -C /repo rev-parse HEAD)", cwd=REPO)
     os.makedirs(HARN, exist_ok=True)
-    sh(f"rsync -a --delete --exclude target --exclude fuzz /verif/harness/ {HARN}/")
+    sh(f"rsync -a --delete --exclude target --exclude fuzz {os.environ.get('HARNESS_SRC', '/verif/harness')}/ {HARN}/")
     toml = open(f"{HARN}/Cargo.toml").read().replace('path = "/repo"', f'path = "{REPO}"')
     open(f"{HARN}/Cargo.toml", "w").write(toml)
     shutil.rmtree(ROOT, ignore_errors=True)
